@@ -43,7 +43,7 @@ pub fn check(tier: Tier) -> Check {
         also_rel: false,
         property: "C07",
         level: "model_checking",
-        rule: "all event sequences over <=2 subscribe calls, SUBACKs, stream() calls, inbound PUBLISH (QoS 0/1/2 x subscription identifier absent / first / second / unknown / both / repeated adjacently and non-adjacently / mixed with an unknown one), stream drops, an unsubscribe, with lagging (held) and spuriously polled streams as deviations; plus two subscriptions whose identifiers differ in exactly one bit (bit 0..27, two base values) with messages to each, to both and to an unregistered neighbour; plus four established subscriptions with stream drops and messages to each in every order, a rolling population (windows of 1..9 live subscriptions; per round one stream dropped - oldest, newest or middle -, a new subscription made, messages to the newest, to each, to all and to the dropped one) over 14 (thorough: 40) rounds; and a sweep over message field combinations; non-trivial = at least one message was dispatched to a stream".into(),
+        rule: "all event sequences over <=2 subscribe calls, SUBACKs, stream() calls, inbound PUBLISH (QoS 0/1/2 x subscription identifier absent / first / second / unknown / both / repeated adjacently and non-adjacently / mixed with an unknown one), stream drops, an unsubscribe, with lagging (held) and spuriously polled streams as deviations; plus two subscriptions whose identifiers differ in exactly one bit (bit 0..27, two base values) with messages to each, to both and to an unregistered neighbour; plus four established subscriptions with stream drops and messages to each in every order, a rolling population (windows of 1..9 live subscriptions; per round one stream dropped - oldest, newest or middle -, a new subscription made, messages to the newest, to each, to all and to the dropped one) over 14 (thorough: 40) rounds; and a sweep over message field combinations; QoS 2 messages over two identifiers released in any order and reused at once; 70 000 unread messages; value flavour (retained / big / alias-only inbound messages, subscribes with every option); non-trivial = at least one message was dispatched to a stream".into(),
         assumptions: vec![
             "acknowledgements written by the client are not compared here (C08)".into(),
             "QoS 2 identifiers are not repeated here (C09)".into(),
